@@ -170,6 +170,12 @@ def note_block_size(ctx, rule):
 
 
 def run(ctx):
+  from sa import pitfalls
+  scope_ = []
+  for mn_ in ('encoder_decoder', 'performance_encoder_decoder', 'melody_encoder_decoder', 'chords_encoder_decoder', 'pianoroll_encoder_decoder'):
+    scope_.extend(fi_ for q_, fi_ in sorted(ctx.P.module(mn_).all_functions.items()) if fi_.cls is not None and '<locals>' not in q_)
+  pitfalls.apply(ctx, 'PITFALL', scope_, ['unforwarded-parameter'], {
+      'unforwarded-parameter': 'the label side and the input side of the encoder are then built for different limits: labels outside num_classes, or labels that decode to events the input side refuses'})
   sampled_sizes(ctx, 'GEN/sampled-size')
   steps_by_decoding(ctx, 'GEN/steps-by-decoding')
   note_block_size(ctx, 'NOTEPERF/pitch-block-size')
